@@ -67,10 +67,17 @@ def branchy_condaux(rng, prog, framer=None):
     mains = [f for f in prog["order"]]
     conds = [f for f in auxes_of_kind(prog) if any(a.get("k") == "auxif" and a["aux"] == f
                                                    for fr in prog["frames"].values() for a in fr["precur"])]
-    if not conds:
-        conds = auxes_of_kind(prog)
-    if not mains or not conds:
+    if not mains:
         return False
+    if not conds:
+        # never reuse a plain auxiliary as a conditional one (a framer is one or the other): make a fresh framer
+        i = 0
+        while "y%d" % i in prog["framers"]:
+            i += 1
+        y = "y%d" % i
+        prog["framers"][y] = {"sched": "aux", "period": 0, "first": "", "frames": []}
+        prog["framers"][y]["first"] = _new_frame(prog, y)
+        conds = [y]
     f = framer or rng.choice(mains)
     keys = _keys_of(prog, f)
     # a main frame with two children
